@@ -70,14 +70,7 @@ theorem C18_labelled (d0 d1 d2 : Nat) :
     (keys d0).map (fun i => [i]) = lexList [d0] ∧
     (keysD2 d0 d1).map (fun p => [p.1, p.2]) = lexList [d0, d1] ∧
     (keysD3 d0 d1 d2).map (fun p => [p.1, p.2.1, p.2.2]) = lexList [d0, d1, d2] := by
-  have single : ∀ {α β : Type} (f : α → β) (l : List α), l.flatMap (fun a => [f a]) = l.map f := by
-    intro α β f l; induction l with
-    | nil => rfl
-    | cons a l ih => simp [List.flatMap_cons, ih]
-  refine ⟨?_, ?_, ?_⟩
-  · simp [keys, lexList, single]
-  · simp [keysD2, iproduct2, keys, lexList, List.map_flatMap, Function.comp_def, single]
-  · simp [keysD3, iproduct3, keys, lexList, List.map_flatMap, Function.comp_def, single]
+  exact keys_lex d0 d1 d2
 
 /-- labelled and unlabelled families agree: the drained `MultiRange` equals the mapped `iproduct!` (ranks 1..3) -/
 theorem C18_families_agree (d0 d1 d2 : Nat) :
